@@ -139,12 +139,15 @@ class ArithmeticOp(Operator):
     def operate(self, *args):
         pass
 
-    def simplify(self):
+    def simplify(self, env=None):
         if all(isinstance(arg, IntValue) for arg in self.args):
-            return IntValue(
+            result = IntValue(
                 int(self.operate(*[arg.data for arg in self.args])),
                 self.span, self.shrinkable
             )
+
+            # Wrap around at the word size, if known
+            return result if env is None else result.evaluate(env)
 
         return self
 
@@ -173,7 +176,7 @@ class BinaryArithmeticOp(Binary, ArithmeticOp):
                 left.coercible(DataType.BYTE) and
                 right.coercible(DataType.BYTE)
             )
-        ).simplify()
+        ).simplify(env)
 
 
 @dc.dataclass(frozen=True)
@@ -183,7 +186,7 @@ class UnaryArithmeticOp(Unary, ArithmeticOp):
         return type(self)(
             self.op_span, arg.coerce(DataType.INT),
             shrinkable=self.shrinkable or arg.coercible(DataType.BYTE)
-        ).simplify()
+        ).simplify(env)
 
 
 class Add(BinaryArithmeticOp):
